@@ -103,6 +103,7 @@ struct Explorer {
   bool check_replay_determinism = true;   // re-evaluate a sample of histories and compare canon
   int child_timeout_s = 20;
   bool expand_after_violation = false;
+  int part = 0, nparts = 1;      // optional partition of the search by the FIRST op (index % nparts == part): run nparts processes in parallel
 
   size_t states = 0, transitions = 0, violations = 0, maxdepth = 0, samples_out = 0, redet = 0;
   bool fixpoint = true, capped = false;
@@ -161,7 +162,7 @@ struct Explorer {
     { std::vector<Hist> init(1); eval_batch(init, ev); if (ev.empty()) return; if (!ev[0].viol.empty()) { report_viol(init[0], ev[0].viol); } seen.insert(ev[0].canon); states = 1; layer.push_back(Hist()); }
     for (size_t d = 0; d < depth && !layer.empty() && !capped; d++) {
       std::vector<Hist> cand;
-      for (auto &h : layer) for (auto &op : menu(h)) { cand.push_back(h); cand.back().push_back(op); }
+      for (auto &h : layer) { size_t oi = 0; for (auto &op : menu(h)) { if (d == 0 && nparts > 1 && (int)(oi++ % (size_t)nparts) != part) continue; cand.push_back(h); cand.back().push_back(op); } }
       eval_batch(cand, ev);
       std::vector<Hist> next;
       for (size_t i = 0; i < ev.size(); i++) {
